@@ -224,3 +224,37 @@ def run(chk):
         if accepted != ok:
             return (f'naming#reference property shape:{pname.split("_")[-1]}', f'{ver} {kind}: property {pname} declared as {type(prop).__name__} was ' + ('accepted' if accepted else 'refused'), {})
     chk.bounded('reference-property naming rule at registration', list(ref_cases()), check_ref, classify=lambda c: c[:3], bound='_ref/_refs names x {ReferenceProperty, list of it, string, list of string} x kinds x versions')
+
+    # property names at registration (2.1): lower-case ASCII letters, digits and underscore, 3-250 characters
+    def pname_cases():
+        for kind in ('object', 'observable', 'extension'):
+            for pname, ok in (('x_ok_name', True), ('abc', True), ('a' * 250, True), ('a b', False), ('aB', False), ('x-hyphen', False), ('ab', False), ('xé_name', False), ('x_name\n', False),
+                              ('a' * 251, False), ('_lead', None), ('7bad', None), ('A_upper_first', False), (' lead', False), ('', False)):
+                yield (kind, pname, ok)
+    m = [0]
+
+    def check_pname(case):
+        kind, pname, ok = case
+        m[0] += 1
+        name = f'x-vf-pn{m[0]}'
+        try:
+            if kind == 'object':
+                @stix2.v21.CustomObject(name, [(pname, P.IntegerProperty())])
+                class C(object): pass
+            elif kind == 'observable':
+                @stix2.v21.CustomObservable(name, [(pname, P.IntegerProperty()), ('x_v', P.IntegerProperty())], id_contrib_props=['x_v'])
+                class C(object): pass
+            else:
+                @stix2.v21.CustomExtension(name + '-ext', [(pname, P.IntegerProperty())])
+                class C(object): pass
+            accepted = True
+        except (ValueError, stix2.exceptions.STIXError):
+            accepted = False
+        except Exception as ex:      # noqa
+            return (f'property-name#registration fails with {type(ex).__name__}', f'2.1 {kind} with property name {pname!r}: {type(ex).__name__}: {ex}', {})
+        if ok is True and not accepted: return ('property-name#valid property name refused', f'2.1 {kind}: property name {pname!r} satisfies the naming rule but was refused', {})
+        if ok is False and accepted:
+            if pname[:1].isascii() and pname[:1].isalpha() and pname[:1].islower():
+                return ('property-name#only the first character of a custom property name is checked', f'2.1 {kind}: property name {pname!r} breaks the naming rule (lower-case letters, digits, underscore; 3-250 characters) but was accepted at registration', {'kind': kind, 'name': pname})
+            return ('property-name#name not starting with a lower-case letter accepted', f'2.1 {kind}: property name {pname!r} was accepted at registration', {'kind': kind, 'name': pname})
+    chk.bounded('property names at registration (2.1)', list(pname_cases()), check_pname, classify=lambda c: c[:2], bound='3 kinds x 15 property names (valid, boundary lengths, illegal characters, case, whitespace, empty)')
